@@ -1,6 +1,7 @@
 package engine
 
 import (
+	"sync/atomic"
 	"fmt"
 	"os"
 	"sort"
@@ -169,6 +170,9 @@ func (p *Path) solve(extra *smt.Term, ms int, wantModel bool) (smt.Result, map[s
 	} else {
 		p.S.Pop()
 	}
+	if r == smt.Unsat {
+		p.crossCheck(extra)
+	}
 	if r != smt.Unknown {
 		return r, nil, nil, why
 	}
@@ -212,6 +216,34 @@ func (p *Path) solve(extra *smt.Term, ms int, wantModel bool) (smt.Result, map[s
 		return r, m, arrs, why
 	}
 	return r, nil, nil, why
+}
+
+// crossCheck re-decides a sample of the incremental session's "unsat" answers
+// (obligations and branch prunings alike) in a fresh process of the other z3
+// release. A "sat" there is a disagreement between the session and a one-shot
+// run: the path is abandoned as inconclusive, never counted as proved.
+func (p *Path) crossCheck(extra *smt.Term) {
+	every := p.X.CrossEvery
+	if every <= 0 {
+		return
+	}
+	if atomic.AddInt64(&p.X.crossCtr, 1)%int64(every) != 0 {
+		return
+	}
+	asserts := append(append([]*smt.Term(nil), p.pcond...), extra)
+	r, _, _, _ := smt.OneShot("z3-new", asserts, nil, 5000)
+	switch r {
+	case smt.Unsat:
+		atomic.AddInt64(&p.X.crossAgreed, 1)
+	case smt.Sat:
+		atomic.AddInt64(&p.X.crossDisagreed, 1)
+		if d := os.Getenv("GOSYM_DUMP"); d != "" {
+			os.WriteFile(fmt.Sprintf("%s/disagree-%d.smt2", d, time.Now().UnixNano()), []byte(smt.Script(asserts)), 0o644)
+		}
+		panic(abortPath{"solver-disagreement", "incremental z3 4.8.12 said unsat, one-shot z3 5.1.0 says sat"})
+	default:
+		atomic.AddInt64(&p.X.crossUndecided, 1)
+	}
 }
 
 // decide returns the branch to follow for a symbolic condition, forking.
